@@ -1,6 +1,7 @@
 package main
 
 import (
+	"os"
 	"fmt"
 	"go/constant"
 	"go/token"
@@ -1004,6 +1005,9 @@ func enumPathsIn(fl *Flat, maxVisits, limit int, visit func(CPath)) bool {
 		rollback(mark)
 	}
 	rec(fl.Blocks[0])
+	if os.Getenv("BMCVERIF_PATHSTATS") != "" {
+		fmt.Fprintf(os.Stderr, "PATHSTATS %s visits=%d limit=%d paths=%d complete=%v\n", fl.Root.String(), maxVisits, limit, count, ok)
+	}
 	return ok
 }
 
